@@ -334,8 +334,8 @@ func (g *gen) step1() {
 			return
 		}
 		kd, nm, ok := g.someAttr(j, 0)
-		if !ok || (g.infos[i].nverts != g.infos[j].nverts && g.infos[i].nverts != 0 && g.r.Chance(9, 10)) {
-			return
+		if !ok || (g.infos[i].nverts != g.infos[j].nverts && g.infos[i].nverts != 0 && g.r.Chance(2, 3)) {
+			return // (one time in three: a copy between meshes of different size, the result is ill-formed)
 		}
 		g.push(Op{Op: "copyattr", I: i, J: j, K: kd, Name: nm})
 	case w < 47:
@@ -505,6 +505,7 @@ func (g *gen) identOp() {
 func (g *gen) mapOp() {
 	nasty := g.r.Chance(1, 10) // possibly a missing attribute / wrong topology: declared error expected
 	which := g.r.Intn(16)
+	wantKind := g.r.Range(1, 3)
 	// choose the function first, then an operand that qualifies
 	need := func(k int) bool {
 		in := g.infos[k]
@@ -512,7 +513,7 @@ func (g *gen) mapOp() {
 		case 0, 1, 2, 3:
 			return in.has(3, "Position")
 		case 4, 5:
-			return len(in.attrs[1])+len(in.attrs[2])+len(in.attrs[3]) > 0
+			return len(in.attrs[wantKind]) > 0
 		case 8:
 			return len(in.attrs[2]) > 0
 		case 10:
@@ -552,7 +553,7 @@ func (g *gen) mapOp() {
 			g.push(Op{Op: "map", Fn: "trs", I: i, Vec: append(small(), g.vec(3, 1, 3)...)})
 		}
 	case 4, 5:
-		kd, nm, ok := g.someAttr(i, g.r.Range(1, 3))
+		kd, nm, ok := g.someAttr(i, wantKind)
 		if !ok {
 			kd, nm, ok = g.someAttr(i, 0)
 		}
